@@ -25,8 +25,11 @@ CHECKS = {
              "operands incl. plain arrays and ten scalar objects) and computes the exact matrix, shape and promoted "
              "dtype of the mathematical expression, marking shape-mismatched applications ill-formed; replay evaluates "
              "the same Python expression on real operands and requires TLC's matrix/shape/dtype or, for ill-formed "
-             "ones, an exception.",
-        design="5/C03", technique="TLC state enumeration of MC_Ops + spec-to-code replay of every state"),
+             "ones, an exception. A second TLC model (spec/Rewrite.tla, MC_Rewrite.tla) transcribes the rewriting rules "
+             "themselves (Impl(e): flattening, identity elimination, scalar merging, Diagonal fusion, 52 dispatch "
+             "signatures resolved by Dispatch.tla) and proves Denote(Impl(e)) = Denote(e) on every enumerated expression "
+             "(mutant negative controls); the tree cola really builds is compared with Impl(e) (drift is reported).",
+        design="5/C03", technique="TLC state enumeration of MC_Ops and MC_Rewrite + spec-to-code replay of every state"),
     "C04": dict(
         text="The live rule table (150 signatures, subtype and isinstance facts, condition truth values) is extracted "
              "from the running process on every run and handed to TLC as constants; TLC evaluates the transcribed plum "
@@ -34,7 +37,8 @@ CHECKS = {
              "complete lattice of admissible calls (about 27k points: function x kind(s) x annotation x algorithm x "
              "arity) and every point must resolve. Conformance both ways: the real resolver is run on real argument "
              "objects for every lattice point and must agree with the model; public calls are executed end to end "
-             "and every nested resolution event is validated against the model by spec/Trace_Dispatch.tla.",
+             "and every nested resolution event is validated against the model by spec/Trace_Dispatch.tla, together "
+             "with the resolution events recorded while the repository's own NumPy tests run under the same recorder.",
         design="5/C04", technique="TLC over extracted rule table (exhaustive lattice) + resolver trace validation"),
     "C05": dict(
         text="TLC enumerates trees whose leaves carry every declaration that TLC has verified true of the exact matrix, "
@@ -59,7 +63,12 @@ CHECKS = {
              "with multiplicities, diagonal, scalar of any size, identity, triangular, permutations of both parities, "
              "dense, real and complex, determinants of both signs and on both sides of 1); replay evaluates slogdet / "
              "logdet with (Auto,Auto), (LU,Auto), (Auto,Exact), (Arnoldi,Exact), (Cholesky,Auto), (Lanczos,Exact) and "
-             "requires sign*exp(logabs) = det, a unit-modulus sign and logdet = logabs.",
+             "requires sign*exp(logabs) = det, a unit-modulus sign and logdet = logabs. Dimensions 5..8 (three-factor "
+             "products) use a subset dynamic-programming determinant (Mat.tla!DetDP). Operators too large to expand "
+             "(scalar of size 5000, diagonals with hundreds of entries, large multiplicities) are decided by "
+             "spec/BigDet.tla: TLC proves on every small compressed tree that the factored determinant multiplies out to "
+             "the determinant of the expanded matrix and evaluates it on the large catalog; the harness forms sign and "
+             "log|det| from TLC's bag of powers.",
         design="5/C07", technique="TLC exact determinant oracle over enumerated trees + spec-to-code replay"),
     "C08": dict(
         text="(a) TLC gives the exact matrix of every square tree; replay calls diag(A, k) for every offset with Exact "
@@ -168,7 +177,10 @@ CHECKS = {
              "the budget. (3) Real operators of those shapes (Kronecker with 2-4 factors, KronSum, BlockDiag with "
              "multiplicities, sums / products with diagonal, scalar, identity; n = 4096..9216) go through matmul, inv / "
              "solve, logdet, diag / trace, sqrt / pow / exp, cholesky, plu with and without explicit algorithm under "
-             "tracemalloc; the peak must stay within TLC's budget.",
+             "tracemalloc; the peak must stay within TLC's budget. (4) spec/LinalgRules.tla transcribes the structural "
+             "rules of inv / slogdet / diag / trace / cholesky / plu (guards, selection, bodies); TLC proves each is the "
+             "algebraic identity under its guard (mutant negative controls) and the rules recorded on the real resolver "
+             "and the skeleton of the real result are compared with the model (drift is reported).",
         design="5/C19", technique="TLC on extracted rule table + TLC cost model + measured-peak conformance"),
     "C20": dict(
         text="TLC resolves every index form (ints, slices incl. negative/strided/empty, integer arrays, lists) with the "
